@@ -46,6 +46,8 @@ func (c *Ctx) regionInit(name string, gen int) string {
 			sort_ = "Int"
 		} else if name == "$held" {
 			sort_ = "Bool"
+		} else if name == "$opos" {
+			sort_ = "Int"
 		} else {
 			panic(fmt.Sprintf("internal: unknown region %s", name))
 		}
@@ -54,7 +56,7 @@ func (c *Ctx) regionInit(name string, gen int) string {
 	if !c.funDecls["const:"+n] {
 		c.funDecls["const:"+n] = true
 		c.declare(n, sort_)
-		if name == "$tpos" {
+		if name == "$tpos" || name == "$opos" {
 			c.addAssert(and(sx("<=", "0", n), sx("<=", n, tposMax)), -1)
 		}
 	}
@@ -78,6 +80,9 @@ func (c *Ctx) regionSort(name string) string {
 	if name == "$held" {
 		return "Bool"
 	}
+	if name == "$opos" {
+		return "Int"
+	}
 	return c.regions[name]
 }
 
@@ -99,7 +104,12 @@ func (c *Ctx) havocAll(s *State) {
 	ghost := c.region(s, "$wfault")
 	tp := c.region(s, "$tpos")
 	held := c.region(s, "$held")
+	op := c.region(s, "$opos")
 	defer func() {
+		// unknown code may have written output: the output cursor only moves forward
+		n := c.freshSort("opos", "Int")
+		c.assume(and(sx("<=", op, n), sx("<=", n, tposMax)))
+		s.cells["$opos"] = Val{S: n}
 		s.cells["$wfault"] = Val{S: ghost}
 		s.cells["$held"] = Val{S: held} // code outside the package cannot touch the package's own mutex
 		// unknown code may have read from the input: the tape cursor only moves forward
@@ -119,6 +129,14 @@ func (c *Ctx) havocAll(s *State) {
 // tposMax: fewer than 2^62 input bytes are ever delivered (stated assumption;
 // keeps cursor arithmetic in contracts free of wrap-around).
 const tposMax = "4611686018427387904"
+
+// havocOpos: the ghost output cursor after code that may have written output.
+func (c *Ctx) havocOpos(s *State) {
+	old := c.region(s, "$opos")
+	n := c.freshSort("opos", "Int")
+	c.assume(and(sx("<=", "0", old), sx("<=", old, n), sx("<=", n, tposMax)))
+	s.cells["$opos"] = Val{S: n}
+}
 
 // havocTpos: the ghost input cursor after code that may have read input.
 func (c *Ctx) havocTpos(s *State, old string) {
